@@ -468,8 +468,25 @@ class P7SocketPair(Program):
                 receiver(rec, 2, pb, 'b', [('poll', 3, 2)]), receiver(rec, 3, pb, 'b', [('poll', 2, 9), ('iter_pending',)])]
 
 
+class P4cFaninTwoReceivers(Program):
+    """Two receivers on one MultiPort, one source: whatever one receiver leaves queued in the MultiPort
+    must not be overtaken by what the other one polls later (per-sender FIFO per receiver)."""
+    name = 'P4c-multiport-fanin-two-receivers'
+    k2_samples = 30
+
+    def build(self, sc, rec):
+        e0 = self.wrap(sc, EchoPort('e0'), 'e0')
+        m = self.wrap(sc, MultiPort([e0]), 'multi')
+        self.ports = {'multi': m}
+        self.keep = (e0,)
+        self.wires = []
+        self.route = lambda pname: ['multi']
+        return [receiver(rec, 0, m, 'multi', [('poll', 3, 9)]), sender(rec, 1, e0, 'e0', 0, (0, 1, 2), (0, 0, 0)),
+                receiver(rec, 2, m, 'multi', [('poll', 2, 1)])]
+
+
 PROGRAMS = [P1Wire, P2Echo, P3IOPort, P4Fanout, P4Fanin, P5IterPending, P6ParserQueue, P6bParserQueuePollers,
-            P7SocketPair, P6cParserQueueLong, P8ParseAll, P9PanicVsSend, P6dTwoQueues, P6eInstr]
+            P7SocketPair, P6cParserQueueLong, P8ParseAll, P9PanicVsSend, P6dTwoQueues, P6eInstr, P4cFaninTwoReceivers]
 
 
 class LockShim:
@@ -839,7 +856,7 @@ def explore_program(ctx, pi, prog_cls, k, shard_filter, n_random, n_pct, tier):
         if k >= 2:
             seconds = [(step, t) for step, others in st.alts for t in others]
             if tier == 'quick':
-                seconds = seconds[::max(1, len(seconds) // 6)]      # a thin slice of the 2-preemption space
+                seconds = seconds[::max(1, len(seconds) // getattr(prog_cls, 'k2_samples', 6))]      # a thin slice of the 2-preemption space
             for pt2 in seconds:
                 one(sched.Preempt((pt, pt2)), 'preempt', {'points': [list(pt), list(pt2)]})
     scale = min(1.0, 350.0 / max(sc0.step, 1))        # long programs: fewer sampled schedules
@@ -853,6 +870,43 @@ def explore_program(ctx, pi, prog_cls, k, shard_filter, n_random, n_pct, tier):
         seed = f'{ctx.seed}:{ctx.shard}:{pi}:p{j}'
         one(sched.PCT(random.Random(seed), 4, depth=3, nsteps=max(50, sc0.step)), 'pct', {'seed': seed, 'nsteps': max(50, sc0.step)})
     return distinct, stats
+
+
+def helper_argument_cases(ctx):
+    """multi_receive / multi_iter_pending / multi_send work on the caller's collection of ports: another
+    thread may be walking that very list (multi_send does), so they must leave it as it is - same
+    ports, same order - and deliver every pending message exactly once."""
+    from mido.ports import multi_iter_pending, multi_receive, multi_send
+    n = 0
+    saved = random.getstate()
+    try:
+        for seed in range(12):
+            for nports in (2, 3, 5):
+                for kind in (list, tuple):
+                    random.seed(seed)
+                    ports = [EchoPort(f'h{i}') for i in range(nports)]
+                    coll = kind(ports)
+                    case = {'kind': 'helper-args', 'seed': seed, 'ports': nports, 'collection': kind.__name__}
+                    try:
+                        multi_send(coll, make_msg(0, 0, 0))
+                        ok_send = all(len(p._messages) == 1 for p in ports) and list(coll) == ports
+                        got1 = list(multi_receive(coll, block=False))
+                        same1 = list(coll) == ports and all(a is b for a, b in zip(coll, ports))
+                        multi_send(coll, make_msg(0, 1, 0))
+                        got2 = list(multi_iter_pending(coll))
+                        same2 = list(coll) == ports and all(a is b for a, b in zip(coll, ports))
+                        got3 = [pm for pm in multi_receive(coll, yield_ports=True, block=False)]
+                        ctx.check('exactly once (nothing lost, duplicated, invented)',
+                                  ok_send and len(got1) == nports and len(got2) == nports and not got3,
+                                  'helpers:delivery', case, {'first': len(got1), 'second': len(got2), 'third': len(got3)})
+                        ctx.check("helpers leave the caller's port collection alone", same1 and same2, 'helpers:argument-reordered',
+                                  case, lambda: {'before': [p.name for p in ports], 'after': [p.name for p in coll]})
+                    except Exception as exc:
+                        ctx.check('no call raises', False, f'helpers:{type(exc).__name__}', case, f'{type(exc).__name__}: {exc}')
+                    n += 1
+    finally:
+        random.setstate(saved)
+    return n
 
 
 def run(ctx):
@@ -877,8 +931,13 @@ def run(ctx):
             blocking_get_case(ctx, nc, nm)
             ctx.nontrivial(('blocking-get', nc, nm))
     nstress = 0
+    if sh == 2 % N:
+        k_ = helper_argument_cases(ctx)
+        ctx.nontrivial(None, k_)
+        ctx.extra('helper_argument_cases', k_)
+        nstress += k_
     if ctx.tier == 'thorough':
-        nstress = stress_phase(ctx, 25.0)
+        nstress += stress_phase(ctx, 25.0)
     ctx.count('cases', total['schedules'] + nstress)
     ctx.extra('scheduler_steps', total['steps'])
     ctx.extra('context_switches', total['context_switches'])
@@ -893,6 +952,9 @@ def run(ctx):
 
 
 def replay(ctx, case):
+    if case.get('kind') == 'helper-args':
+        helper_argument_cases(ctx)
+        return
     if case.get('kind') == 'blocking-get':
         blocking_get_case(ctx, case['consumers'], case['messages'])
         return
